@@ -582,6 +582,17 @@ class ExprMixin:
                 if s.check() != z3.unsat:
                     raise OutsideSubset('possible aliasing of %s through two references' % (root[2],))
 
+    def dict_place(self, v):
+        """For an object of a class that derives from dict: the place of the Map field standing for
+        the mapping itself (model option dict_field), else None."""
+        if isinstance(v, SV) and isinstance(v.ty, TRef):
+            for q in self.classes.mro(v.ty.cls):
+                m = api.MODELS.get(q)
+                if m is not None and getattr(m, 'dict_field', None):
+                    dcls, _ = self.classes.field(v.ty.cls, m.dict_field)
+                    return Place(('field', v.t, (dcls, m.dict_field)))
+        return None
+
     def is_container_type(self, ty):
         if isinstance(ty, (TSeq, TMap)):
             return True
@@ -669,6 +680,10 @@ class ExprMixin:
                 return z3.Length(items.t) > 0
             if ty.cls.startswith('dict:'):
                 items = self.read_field(st, v, ty.cls, 'items')
+                return z3.Length(items.ty.keys(items.t)) > 0
+            dp = self.dict_place(v)
+            if dp is not None:
+                items = self.read_place(st, dp)
                 return z3.Length(items.ty.keys(items.t)) > 0
             c = self.classes.contract_for(ty.cls, '__len__')
             dc, node = self.classes.find_method(ty.cls, '__len__')
@@ -1193,6 +1208,8 @@ class ExprMixin:
         if isinstance(ty, TRef) and ty.cls.startswith('list:'):
             items = self.read_field(st, container, ty.cls, 'items')
             return self.contains(st, items, item, node)
+        if isinstance(ty, TRef) and self.dict_place(container) is not None:
+            return self.map_has(self.read_place(st, self.dict_place(container)), item)
         if isinstance(ty, TRef):
             res = self.call_method(st, container, '__contains__', [item], {}, node)
             if len(res) == 1 and normal(res[0][0]):
@@ -1335,6 +1352,8 @@ class ExprMixin:
             return Entity('ext', ent.data + '.' + attr)
         if ent.kind == 'class':
             return Entity('classattr', (ent.data, attr))
+        if ent.kind == 'builtin' and ent.data == 'dict' and attr == '__init__':
+            return Entity('classattr', ('builtin:dict', '__init__'))
         if ent.kind == 'global':
             return Entity('globalattr', (ent.data, attr))
         raise OutsideSubset('attribute %s of %s' % (attr, ent))
@@ -1450,6 +1469,8 @@ class ExprMixin:
         if isinstance(ty, TRef) and ty.cls.startswith('list:'):
             items = self.read_field(st, base, ty.cls, 'items')
             return self.do_index(st, items, idx, node)
+        if isinstance(ty, TRef) and self.dict_place(base) is not None:
+            return self.map_lookup(st, self.read_place(st, self.dict_place(base)), idx, node)
         if isinstance(ty, TRef):
             return self.call_method(st, base, '__getitem__', [idx], {}, node)
         raise OutsideSubset('subscript of ' + str(ty))
